@@ -6,11 +6,13 @@ package inproc
 
 import (
 	"fmt"
+	"os"
 	"runtime"
 	"strings"
 
 	"github.com/rs/zerolog"
 
+	"github.com/coreruleset/crs-toolchain/v2/cmd"
 	"github.com/coreruleset/crs-toolchain/v2/configuration"
 	crsctx "github.com/coreruleset/crs-toolchain/v2/context"
 	"github.com/coreruleset/crs-toolchain/v2/regex/operators"
@@ -127,5 +129,83 @@ func GenerateFresh(dir, text string) Outcome {
 	return Guard(func() (string, error) {
 		ctxt := processors.NewContext(crsctx.New(dir, "toolchain.yaml"))
 		return operators.NewAssembler(ctxt).Run(text)
+	})
+}
+
+// ---- command-level seams (package cmd, through the export shim) ----
+
+// captureStdout runs f with os.Stdout redirected into a (reused) file and returns what was printed.
+var capFile *os.File
+
+func captureStdout(f func()) string {
+	if capFile == nil {
+		tmp, err := os.CreateTemp("", "vt-stdout-*")
+		if err != nil {
+			panic(err)
+		}
+		os.Remove(tmp.Name())
+		capFile = tmp
+	}
+	capFile.Truncate(0)
+	capFile.Seek(0, 0)
+	old := os.Stdout
+	os.Stdout = capFile
+	func() {
+		defer func() { os.Stdout = old }()
+		f()
+	}()
+	n, _ := capFile.Seek(0, 1)
+	if n == 0 {
+		return ""
+	}
+	b := make([]byte, n)
+	capFile.ReadAt(b, 0)
+	return string(b)
+}
+
+// CmdResult is the observable result of one in-process command: printed text and how it ended.
+type CmdResult struct {
+	Outcome
+	Stdout string `json:"stdout,omitempty"`
+}
+
+func (c CmdResult) Obs() string { return c.Kind + "\x00" + c.Out + "\x00" + c.Stdout }
+
+func runCmd(f func() (string, error)) CmdResult {
+	var o Outcome
+	so := captureStdout(func() { o = Guard(f) })
+	return CmdResult{o, so}
+}
+
+func (r *Root) procCtx() *processors.Context { return processors.NewContext(crsctx.New(r.Dir, "toolchain.yaml")) }
+
+// Format is `regex format <file>` (check=false) or `regex format --check <file>`.
+func (r *Root) Format(filePath string, check bool) CmdResult {
+	return runCmd(func() (string, error) {
+		cmd.VerifSetRoot(r.Dir, false)
+		return "", cmd.VerifProcessFile(filePath, r.procCtx(), check)
+	})
+}
+
+// Update is `regex update <arg>` for an already validated argument.
+func (r *Root) Update(arg string) CmdResult {
+	return runCmd(func() (string, error) {
+		cmd.VerifSetRoot(r.Dir, false)
+		if _, _, _, err := cmd.VerifParseRuleId(arg); err != nil {
+			return "", err
+		}
+		cmd.VerifPerformUpdate(false, r.procCtx())
+		return "", nil
+	})
+}
+
+// Compare is `regex compare <arg>`.
+func (r *Root) Compare(arg string, github bool) CmdResult {
+	return runCmd(func() (string, error) {
+		cmd.VerifSetRoot(r.Dir, github)
+		if _, _, _, err := cmd.VerifParseRuleId(arg); err != nil {
+			return "", err
+		}
+		return "", cmd.VerifPerformCompare(false, r.procCtx())
 	})
 }
